@@ -48,6 +48,8 @@ def queries_for(task, rb):
             if part is not None and len(part) >= 2:
                 have = set(tq)
                 tq += [x for x in scopes.type_queries(rb.sems, nW, 2, 2) if x not in have and ref.tie_rich(part, rb.sems, x, feas)]
+        elif maxv == "W12":
+            tq = scopes.world_queries(nW)
         else:
             tq = scopes.type_queries(rb.sems, nW, maxv, maxf)
         for vf in tq:
